@@ -11,7 +11,7 @@ from gev import core, evo, workload
 PROPERTY = "C12"
 LEVEL = "exploration"
 EXHAUSTIVE = True
-TECHNIQUE = "runtime monitor: a recorder (extension API) captures every register(individual, is_best) call and the tracker's reported best after each evaluation; an offline checker replays the history against a 10-line sequential best-so-far model; histories = ALL fitness sequences over {0,1,2} up to length 7 fed to the real trackers, plus scripted landscapes driving the four real search algorithms"
+TECHNIQUE = "runtime monitor: a recorder (extension API) captures every register(individual, is_best) call and the tracker's reported best after each evaluation; an offline checker replays the history against a 10-line sequential best-so-far model; histories = ALL fitness sequences over {0,1,2} up to length 7 fed to the real trackers, plus scripted landscapes driving the four real search algorithms; in GP runs with self-evaluating steps a delegating step records the members handed over, each evaluated member must have been presented to the tracker"
 RULE = (
     "tracker cases = every value sequence over {0,1,2} of length 1..7 x {maximise, minimise} x {single, multi-objective tracker}; algorithm cases = "
     "(algorithm in GP/RS/HC/1+1, representation, direction, scripted value sequence with ties, plateaus and late improvements); "
